@@ -67,6 +67,16 @@ pub fn generate(seed: u64, tier: Tier, check: &str) -> Scenario {
     // one run in eight drives the REAL transport/local.rs (tmpfs) behind the interceptor,
     // including the zero-length files a killed local write leaves
     sc.env.local_backend = r.chance(1, 8);
+    if check == "C13" {
+        // "after any sequence of operations": some backups also meet storage errors
+        for s in sc.steps.iter_mut() {
+            if let Step::Backup { plan, .. } = s {
+                if plan.is_faultless() && r.chance(1, 5) {
+                    plan.fail_each = Some((r.next_u64(), *r.pick(&[10u32, 30])));
+                }
+            }
+        }
+    }
     sc
 }
 
